@@ -127,7 +127,7 @@ def strategy_case(draw):
             features.append(draw(hostile_feature(name, kind, blocks, shape)))
         else:
             spec = draw(feature_spec(name, kind, blocks, "none", None))
-            if cls == "CategoricalDiscretizer" and spec.get("flavour") in ("ints", "floats", "mixed"):
+            if cls == "CategoricalDiscretizer" and spec.get("flavour") in ("ints", "floats", "mixed", "flags", "bools"):
                 spec["values"] = [f"v{n}" for n, _ in enumerate(spec["values"])]
                 spec["flavour"] = "str"
             features.append(spec)
